@@ -17,7 +17,7 @@ import (
 	"encoding/json"
 	"fmt"
 	"net/url"
-	"strings"
+	"regexp"
 	"testing"
 	"unicode/utf8"
 
@@ -90,13 +90,11 @@ func c13InDomain(s string) bool {
 	if u.User != nil {
 		return false
 	}
-	// a host with at most one port
-	host := u.Host
-	if i := strings.LastIndex(host, "]"); i >= 0 {
-		host = host[i+1:]
-	}
-	return strings.Count(host, ":") <= 1
+	// a host (registered name, IPv4 or bracketed IPv6 literal) with at most one port
+	return c13Host.MatchString(u.Host)
 }
+
+var c13Host = regexp.MustCompile(`^(\[[0-9a-fA-F:.]+\]|[^\[\]:]*)(:[0-9]*)?$`)
 
 func sameRef(f *vstat.Failure, what string, want, got spec.Ref) {
 	if want.String() != got.String() {
